@@ -320,6 +320,18 @@ example : (getPath ["a", "l", "3"]
 example : okIs (runUpdater .set .null (.arr [.int 0]) (toString 3) (.int 7))
     (.arr [.int 0, .null, .null, .int 7]) = true := by decide +kernel
 
+/-- known finding `nonnumeric-component-skipped` (outside `writable` / `getPath`, which the theorems
+    above are stated on): a path component that is no index is dropped when it meets an array, and
+    the walk goes on with the next component — the model follows the code: `$pop` of `d.x.0` pops
+    from `d[0]`, `$set` of `d.x.0` stores `d[0]`, although nothing is at `d.x.0` -/
+example :
+    let d : Val := .doc [("_id", .int 1), ("d", .arr [.arr [.str "b", .str "ba"]])]
+    getPath ["d", "x", "0"] d = none ∧ writable ["d", "x", "0"] d = false ∧
+    okIs (updateSingleField .pop .null (.int (-1)) ["d", "x", "0"] d)
+      (.doc [("_id", .int 1), ("d", .arr [.arr [.str "ba"]])]) = true ∧
+    okIs (updateSingleField .set .null (.int 5) ["d", "x", "0"] d)
+      (.doc [("_id", .int 1), ("d", .arr [.int 5])]) = true := by decide +kernel
+
 /-- `$unset/$inc/$min/$max/$pop/$rename` group -/
 example : okIs (runUpdater .inc .null (.doc [("_id", .int 1), ("n", .int 2)]) "n" (.int 5))
       (.doc [("_id", .int 1), ("n", .int 7)]) = true ∧
